@@ -47,6 +47,9 @@ func findOnce(repo rule.Repository, op map[string]any) any {
 
 	if err == nil {
 		res["caps"] = sortedPairs(ctx.Request().URL.Captures)
+		if ver := ctx.UpstreamHeaders().Get("X-Verif-Ver"); ver != "" {
+			res["ver"] = ver
+		}
 	}
 
 	return res
